@@ -686,8 +686,24 @@ def rule_cache1(ctx: Ctx) -> RuleResult:
                     and (is_cache(s.value.func, m) or (isinstance(s.value.func, ast.Call) and is_cache(s.value.func, m))):
                 cached[s.targets[0].id] = s
         for name, d in sorted(cached.items()):
-            uses = [c for c in ast.walk(m.tree) if isinstance(c, ast.Call) and isinstance(c.func, ast.Name) and c.func.id == name and c.args
-                    and any(id(f) in per_item for f in _enclosing_chain(m, c))]
+            def from_config(c):
+                # every name in the arguments belongs to a scope outside the per-subscription functions (a factory parameter, a
+                # module constant): the key of the cache is configuration, of which there are a few values, not data
+                for a in list(c.args) + [k.value for k in c.keywords]:
+                    for x in ast.walk(a):
+                        if not isinstance(x, ast.Name):
+                            continue
+                        owner = None
+                        for f in _enclosing_chain(m, c):
+                            scx = m.scopes.get(f)
+                            if scx is not None and (x.id in scx.params or x.id in scx.locals):
+                                owner = f
+                                break
+                        if owner is not None and id(owner) in per_item:
+                            return False
+                return True
+            uses = [c for c in ast.walk(m.tree) if isinstance(c, ast.Call) and isinstance(c.func, ast.Name) and c.func.id == name and (c.args or c.keywords)
+                    and any(id(f) in per_item for f in _enclosing_chain(m, c)) and not from_config(c)]
             r.groups.add((rel, name))
             r.ob(not uses, lambda name=name, d=d, uses=uses: Finding(
                 "CACHE-1", "%s::%s{memoised}" % (rel, name), m.where(d),
